@@ -237,11 +237,19 @@ APPEND(skip_lane_copy_,i):
         btr     [state + _snow3g_init_done], WORD(%%LANE)
 
 %ifdef SAFE_DATA
-        ;; clear keystream for processed job
+        ;; clear keystream for processed job and for NULL lanes
+        ;; (flush generates keystream of a valid job in NULL lanes)
+        ;; - ks stored at 32 byte offsets
         pxor    %%TMP_XMM_0, %%TMP_XMM_0
-        shl     WORD(%%LANE), 5 ;; ks stored at 32 byte offsets
-        movdqa  [state + _snow3g_ks + %%LANE], %%TMP_XMM_0
-        movdqa  [state + _snow3g_ks + 16 + %%LANE], %%TMP_XMM_0
+%assign i 0
+%rep 4
+        cmp     qword [state + _snow3g_job_in_lane + (i*8)], 0
+        jne     APPEND(%%skip_ks_clear_,i)
+        movdqa  [state + _snow3g_ks + i*32], %%TMP_XMM_0
+        movdqa  [state + _snow3g_ks + i*32 + 16], %%TMP_XMM_0
+APPEND(%%skip_ks_clear_,i):
+%assign i (i+1)
+%endrep
 %endif
 
         jmp     %%return_uia2
@@ -265,6 +273,17 @@ APPEND(skip_lane_copy_,i):
                                 %%TMP_XMM_9, %%TMP_XMM_10, %%TMP_XMM_11,  \
                                 %%TMP_XMM_12, %%TMP_XMM_13, %%TMP_XMM_14, \
                                 %%TMP_XMM_15, state
+
+%ifdef SAFE_DATA
+        ;; LFSR and FSM registers of the 4 lanes are not needed after
+        ;; the keystream has been generated - clear them
+        pxor    %%TMP_XMM_0, %%TMP_XMM_0
+%assign i 0
+%rep (16 + 3)
+        movdqa  [state + _snow3g_args_LFSR_0 + i*64], %%TMP_XMM_0
+%assign i (i+1)
+%endrep
+%endif
 
         ;; update init_done for valid initialized lanes
         mov     [state + _snow3g_init_done], WORD(init_lanes)
